@@ -726,4 +726,112 @@ theorem Rel_close (m : Bytes) (cap : Nat) (res : St × LoopOut) (o : Obs) (h : R
     | bad k' => simp only [Rel] at h; simp [closeOut, SameOutcome, h]
   | closedEarly => cases o <;> simp [Rel] at h
 
+/-! ### invalid length information is rejected (characterisation of acceptance) -/
+
+theorem parseDigits_sound (base : Nat) : ∀ (s : Bytes) (acc n : Nat), parseDigits base s acc = some n →
+    (∀ c ∈ s, (digitVal base c).isSome = true) ∧ n < 2 ^ 64 ∨ (s = [] ∧ n = acc) := by
+  intro s
+  induction s with
+  | nil => intro acc n h; simp [parseDigits] at h; exact Or.inr ⟨rfl, h.symm⟩
+  | cons c cs ih =>
+    intro acc n h
+    simp only [parseDigits] at h
+    cases hd : digitVal base c with
+    | none => rw [hd] at h; cases h
+    | some v =>
+      rw [hd] at h
+      simp only at h
+      split at h
+      · rename_i hlt
+        rcases ih _ _ h with ⟨h1, h2⟩ | ⟨h1, h2⟩
+        · left
+          refine ⟨?_, h2⟩
+          intro x hx
+          rcases List.mem_cons.mp hx with rfl | hx
+          · simp [hd]
+          · exact h1 x hx
+        · left
+          subst h1
+          refine ⟨?_, by omega⟩
+          intro x hx
+          simp only [List.mem_cons, List.not_mem_nil, or_false] at hx
+          subst hx; simp [hd]
+      · cases h
+
+theorem parseFullUInt_sound (base : Nat) (s : Bytes) (n : Nat) (h : parseFullUInt base s = some n) :
+    s ≠ [] ∧ (∀ c ∈ s, (digitVal base c).isSome = true) ∧ n < 2 ^ 64 := by
+  unfold parseFullUInt at h
+  split at h
+  · cases h
+  · rename_i hne
+    have hne' : s ≠ [] := by simpa using hne
+    rcases parseDigits_sound base s 0 n h with ⟨h1, h2⟩ | ⟨h1, _⟩
+    · exact ⟨hne', h1, h2⟩
+    · exact absurd h1 hne'
+
+theorem parseCLElems_sound : ∀ (es : List Bytes) (hv : Option Nat) (n : Nat), parseCLElems es hv = .ok n →
+    (∀ e ∈ es, parseFullUInt 10 (trim e) = some n) ∧ (∀ r, hv = some r → r = n) := by
+  intro es
+  induction es with
+  | nil =>
+    intro hv n h
+    cases hv with
+    | none => simp [parseCLElems] at h
+    | some r =>
+      simp only [parseCLElems, Except.ok.injEq] at h
+      exact ⟨(by intro e he; cases he), (by intro r' hr; cases hr; exact h)⟩
+  | cons e es ih =>
+    intro hv n h
+    simp only [parseCLElems] at h
+    cases hp : parseFullUInt 10 (trim e) with
+    | none => rw [hp] at h; cases h
+    | some v =>
+      rw [hp] at h
+      cases hv with
+      | none =>
+        simp only at h
+        obtain ⟨h1, h2⟩ := ih _ _ h
+        have hvn : v = n := h2 v rfl
+        refine ⟨?_, (by intro r hr; cases hr)⟩
+        intro x hx
+        rcases List.mem_cons.mp hx with rfl | hx
+        · rw [hp, hvn]
+        · exact h1 x hx
+      | some r =>
+        simp only at h
+        split at h
+        · cases h
+        · rename_i hne
+          have hvr : v = r := by
+            cases Nat.decEq v r with
+            | isTrue e => exact e
+            | isFalse ne => exact absurd ne hne
+          obtain ⟨h1, h2⟩ := ih _ _ h
+          have hvn : v = n := h2 v rfl
+          refine ⟨?_, (by intro r' hr; cases hr; rw [← hvr, hvn])⟩
+          intro x hx
+          rcases List.mem_cons.mp hx with rfl | hx
+          · rw [hp, hvn]
+          · exact h1 x hx
+
+theorem sizeLine_sound (buf : Bytes) (cap pos n ds : Nat) (h : sizeLine buf cap pos = .ok n ds) :
+    n ≤ cap ∧ n < 2 ^ 64 := by
+  unfold sizeLine at h
+  split at h
+  · cases h
+  · simp only at h
+    split at h
+    · cases h
+    · split at h
+      · cases h
+      · split at h
+        · cases h
+        · rename_i v hp
+          split at h
+          · cases h
+          · split at h
+            · cases h
+              exact ⟨by omega, (parseFullUInt_sound 16 _ _ hp).2.2⟩
+            · cases h
+
 end Iora.Http
